@@ -15,7 +15,7 @@ import shutil
 import tempfile
 import threading
 
-from .. import gen, emit, lib, util, sched
+from .. import gen, emit, lib, util, sched, env
 from ..emit import M, L, S, SP
 
 ID = 'C20'
@@ -96,6 +96,8 @@ def gen_case(rng, tier):
     scheds.append({'policy': 'sweep', 'window': True})       # aimed at the thread-local windows (parsing phase)
     # lock-step through one of the functions where builds touch things outside their own trees (files, look-up, per-thread defaults):
     # the threads take turns at every line of it
+    if rng.random() < 0.12:
+        scheds.append({'policy': 'coldstart', 'how': rng.choice(['stepfn', 'stepfn', 'random']), 'seed': rng.randrange(1000)})
     scheds.append({'policy': 'stepfn', 'fnames': rng.choice([['add_source'], ['add_source'], ['add_source', 'on_preprocess_impl'], ['parse', 'add_source'],
                                                             ['get_lookup_dirs', 'on_preprocess_impl'], ['preprocess', 'flatten'], ['add_source', 'add_multiple_sources', 'build']])})
     if rng.random() < 0.3:
@@ -177,9 +179,31 @@ def run(case):
         _counts['line_events'] += s0.events
         if out0 != solo:
             vio.append({'mech': 'differs-without-preemption', 'what': f'threads run one after another (no preemption) already differ from solo runs: {_first_diff(solo, out0)}'})
+        settings0 = _process_settings()
         for sc in case['scheds']:
             if vio:
                 break
+            now = _process_settings()
+            if now != settings0:
+                vio.append({'mech': 'process-wide-setting-changed-by-concurrent-builds', 'what': f'after the schedules so far {[k for k in settings0 if settings0[k] != now[k]]} changed: before {settings0}, now {now} (one build after another leaves them alone); jobs={_desc(case)}'})
+                break
+            if sc['policy'] == 'coldstart':
+                # two builds which are the first ones of their process (a fresh interpreter: see vlib/coldstart.py)
+                import json
+                import subprocess
+                try:
+                    p = subprocess.run([sys.executable, '-m', 'vlib.coldstart', sc['how'], str(sc['seed'])], cwd=env.VERIF, env=env.child_env(), capture_output=True, text=True, timeout=120)
+                    rep = json.loads([l for l in p.stdout.splitlines() if l.startswith('{')][-1])
+                except Exception as e:
+                    return {'status': 'inconclusive', 'why': f'cold-start subprocess gave no report: {e!r}'}
+                _counts['coldstart_runs'] = _counts.get('coldstart_runs', 0) + 1
+                feats.append('first_builds_of_a_process_' + sc['how'])
+                if not rep.get('finished'):
+                    return {'status': 'inconclusive', 'why': 'cold-start subprocess did not finish its schedule'}
+                bad = {i: t for i, t in rep['threads'].items() if not t or not t.get('ok') or t.get('n_foreign') or t.get('pickles') is not True}
+                if bad:
+                    vio.append({'mech': 'first-builds-of-a-process-interfere', 'what': f'two threads building as the first users of a fresh process ({sc["how"]} schedule, seed {sc["seed"]}, {rep["switches"]} switches): {bad}'})
+                continue
             if sc['policy'] == 'free':
                 old = sys.getswitchinterval()
                 sys.setswitchinterval(1e-6)
@@ -226,12 +250,26 @@ def run(case):
                 return {'status': 'inconclusive', 'why': f'schedule {sc} did not finish within the watchdog (token at {s.cur}, alive {sorted(s.alive)})'}
             if out != solo:
                 vio.append({'mech': 'interference-under-schedule', 'what': f'policy={sc} switches={[(e[0], e[1], e[2], e[3]) for e in s.trace[:6]]}: {_first_diff(solo, out)}; jobs={_desc(case)}'})
+        if not vio and _process_settings() != settings0:
+            now = _process_settings()
+            vio.append({'mech': 'process-wide-setting-changed-by-concurrent-builds', 'what': f'after the concurrent runs {[k for k in settings0 if settings0[k] != now[k]]} changed: before {settings0}, now {now}; jobs={_desc(case)}'})
+            # (put it back: the following cases of this worker start from the same state)
+            sys.setrecursionlimit(settings0['recursion_limit'])
     finally:
         shutil.rmtree(root, ignore_errors=True)
     res = {'status': 'violation' if vio else 'ok', 'nontrivial': nontrivial, 'feats': sorted(set(feats)), 'sig': util.sig(sig_parts), 'evals': len(case['scheds'])}
     if vio:
         res['violations'] = vio[:2]
     return res
+
+
+def _process_settings():
+    """interpreter-wide settings a build has no business changing for other threads"""
+    import gc
+    import warnings
+    return {'recursion_limit': sys.getrecursionlimit(), 'cwd': os.getcwd(), 'sys_path_len': len(sys.path), 'environ': util.sig(sorted(os.environ.items())),
+            'stack_size': threading.stack_size(), 'gc_enabled': gc.isenabled(), 'warning_filters': len(warnings.filters), 'umask_probe': None,
+            'excepthook': getattr(threading.excepthook, '__name__', '?'), 'trace': sys.gettrace() is not None, 'profile': sys.getprofile() is not None}
 
 
 def _desc(case):
